@@ -48,7 +48,7 @@ func TestVerifC13Child(t *testing.T) {
 	}
 
 	el := &vc13ErrLog{}
-	u, err := vc13NewUnits(os.Getenv(vc13EnvDir), os.Getenv(vc13EnvURL), el, vc13ChildTimeout, true, vc13CrashHashMax, "")
+	u, err := vc13NewUnits(os.Getenv(vc13EnvDir), os.Getenv(vc13EnvURL), el, vc13ChildTimeout, true, vc13CrashHashMax, nil, nil)
 	if err != nil {
 		fmt.Printf("VC13-ERR %v\n", err)
 		os.Exit(3)
@@ -92,6 +92,9 @@ type vc13Kill struct {
 	Chunk       int    `json:"chunk"`
 	ExtraUS     int    `json:"extra_us"`
 	DelayKillUS int    `json:"delay_kill_us"`
+
+	// Lowered is as in vc13Seq: a second restart with lowered size limits.
+	Lowered map[string]string `json:"lowered,omitempty"`
 
 	// PartialIdx adds invalid entries to the index of the round.
 	PartialIdx bool `json:"partial_idx,omitempty"`
@@ -164,6 +167,15 @@ func vc13GenKill(t *rapid.T) (k *vc13Kill) {
 	}
 
 	k.TmpFallback = rapid.IntRange(0, 2).Draw(t, "tmp-fallback") == 0
+	if rapid.Bool().Draw(t, "lowered") {
+		k.Lowered = map[string]string{}
+		for _, tg := range vc13LowerTargets {
+			rel := rapid.SampledFrom([]string{"", "limit-1", "limit", "limit+1", "3limit"}).Draw(t, "lowered-"+tg)
+			if rel != "" {
+				k.Lowered[tg] = rel
+			}
+		}
+	}
 
 	return k
 }
@@ -187,7 +199,7 @@ func TestVerifC13CrashPoints(t *testing.T) {
 	rapid.Check(t, func(t *rapid.T) {
 		k := vc13GenKill(t)
 
-		w := vc13NewWorld(t, st, msgs, baseDir, true, vc13ChildTimeout, vc13CrashHashMax, false)
+		w := vc13NewWorld(t, st, msgs, baseDir, true, vc13ChildTimeout, vc13CrashHashMax, nil)
 		defer w.close()
 
 		tmpDir, err := os.MkdirTemp(baseDir, "tmp-")
@@ -219,7 +231,10 @@ func TestVerifC13CrashPoints(t *testing.T) {
 
 		resps, _ := w.plan(1, &r1)
 		w.srv.setPlan(resps, nil, nil)
-		pnc := w.u.refreshAll(w.el, true, vc13CtxGenerous, false)
+		var pnc any
+		w.watched("the initial load of the crash-point part", seq, func() {
+			pnc = w.u.refreshAll(w.el, true, vc13CtxGenerous, false)
+		})
 		w.srv.endRound()
 		if emsgs := w.el.take(); pnc != nil || len(emsgs) > 0 {
 			for _, m := range emsgs {
@@ -460,14 +475,17 @@ func TestVerifC13CrashPoints(t *testing.T) {
 		}
 
 		// Restart clause.
-		classes = append(classes, w.checkRestart(seq, &vc13Obs{Files: files}, true))
+		classes = append(classes, w.checkRestart(seq, &vc13Obs{Files: files}, true, nil)...)
+		if len(k.Lowered) > 0 {
+			classes = append(classes, w.checkRestart(seq, &vc13Obs{Files: files}, true, k.Lowered)...)
+		}
 
 		key := ""
 		if nt {
 			key = vc13JSON(k)
 		}
 
-		st.Case(key, classes...)
+		st.Case(key, vc13Uniq(classes)...)
 		if nt && st.WantSample() {
 			st.Sample(k)
 		}
